@@ -525,6 +525,73 @@ Corollary cf_starts_openid v r d : cf_starts v r d = true -> ~ cf_is_proxy (cf_r
   cf_rule_client (cf_resolve_all r) /\ cf_rule_disc (cf_resolve_all r) d.
 Proof. intros H Hp. apply cf_starts_iff in H. unfold cf_rules_impl, cf_rules_core, cf_rule_openid in H. tauto. Qed.
 
+(** The support lists of the discovery document are matched LITERALLY: the configured authentication level must itself be
+    in acr_values_supported, or be one of the two legacy names whose documented translation is in it. No ordering of
+    levels is involved: a provider advertising only a HIGHER level does not support the configured one. *)
+Lemma cf_acr_translate_spec a t : cf_acr_translate a = Some t <->
+  (a = cf_lit_level3 /\ t = cf_lit_loa_substantial) \/ (a = cf_lit_level4 /\ t = cf_lit_loa_high).
+Proof.
+  unfold cf_acr_translate. destruct (beq a cf_lit_level3) eqn:E3.
+  - apply beq_eq in E3. split.
+    + intros [= <-]. left. split; [exact E3|reflexivity].
+    + intros [[_ ->]|[H4 _]]; [reflexivity|]. subst a. vm_compute in H4. discriminate.
+  - apply beq_neq in E3. destruct (beq a cf_lit_level4) eqn:E4.
+    + apply beq_eq in E4. split.
+      * intros [= <-]. right. split; [exact E4|reflexivity].
+      * intros [[H3 _]|[_ ->]]; [contradiction|reflexivity].
+    + apply beq_neq in E4. split; [discriminate|]. intros [[H _]|[H _]]; contradiction.
+Qed.
+
+Definition cf_acr_literal (a : bytes) (l : list bytes) : Prop :=
+  a = [] \/ In a l \/ (a = cf_lit_level3 /\ In cf_lit_loa_substantial l) \/ (a = cf_lit_level4 /\ In cf_lit_loa_high l).
+
+Lemma cf_rule_acr_literal c d : cf_rule_acr c d <-> cf_acr_literal (cf_acr c) (cf_d_acrs d).
+Proof.
+  unfold cf_rule_acr, cf_acr_literal. split.
+  - intros [H|[H|(t & Ht & Hin)]]; auto. apply cf_acr_translate_spec in Ht.
+    destruct Ht as [[Ha ->]|[Ha ->]]; auto.
+  - intros [H|[H|[[Ha Hin]|[Ha Hin]]]]; auto; right; right.
+    + exists cf_lit_loa_substantial. split; [apply cf_acr_translate_spec; auto|exact Hin].
+    + exists cf_lit_loa_high. split; [apply cf_acr_translate_spec; auto|exact Hin].
+Qed.
+
+Corollary cf_starts_support_literal v r d : cf_starts v r d = true -> ~ cf_is_proxy (cf_resolve_all r) ->
+  let c := cf_resolve_all r in
+  cf_acr_literal (cf_acr c) (cf_d_acrs d) /\ (cf_locale c = [] \/ In (cf_locale c) (cf_d_locales d)) /\
+  In (cf_alg c) (cf_d_algs d).
+Proof.
+  intros H Hp c. destruct (cf_starts_openid v r d H Hp) as [_ (_ & _ & Ha & Hl & Hg & _)].
+  split; [apply cf_rule_acr_literal; exact Ha|]. split; [exact Hl|exact Hg].
+Qed.
+
+Corollary cf_unadvertised_acr_refused v r d : ~ cf_is_proxy (cf_resolve_all r) ->
+  ~ cf_acr_literal (cf_acr (cf_resolve_all r)) (cf_d_acrs d) -> cf_starts v r d = false.
+Proof.
+  intros Hp Hn. destruct (cf_starts v r d) eqn:E; [|reflexivity].
+  exfalso. apply Hn. exact (proj1 (cf_starts_support_literal v r d E Hp)).
+Qed.
+
+(* the modern names have no translation: configured idporten-loa-substantial starts only if that very string is advertised *)
+Corollary cf_substantial_needs_substantial v r d : cf_starts v r d = true -> ~ cf_is_proxy (cf_resolve_all r) ->
+  cf_acr (cf_resolve_all r) = cf_lit_loa_substantial -> In cf_lit_loa_substantial (cf_d_acrs d).
+Proof.
+  intros H Hp Ha. destruct (proj1 (cf_starts_support_literal v r d H Hp)) as [He|[Hi|[[H3 _]|[H4 _]]]].
+  - rewrite Ha in He. vm_compute in He. discriminate.
+  - rewrite Ha in Hi. exact Hi.
+  - rewrite Ha in H3. vm_compute in H3. discriminate.
+  - rewrite Ha in H4. vm_compute in H4. discriminate.
+Qed.
+
+Corollary cf_level3_needs_level3_or_substantial v r d : cf_starts v r d = true -> ~ cf_is_proxy (cf_resolve_all r) ->
+  cf_acr (cf_resolve_all r) = cf_lit_level3 -> In cf_lit_level3 (cf_d_acrs d) \/ In cf_lit_loa_substantial (cf_d_acrs d).
+Proof.
+  intros H Hp Ha. destruct (proj1 (cf_starts_support_literal v r d H Hp)) as [He|[Hi|[[_ Hs]|[H4 _]]]].
+  - rewrite Ha in He. vm_compute in He. discriminate.
+  - rewrite Ha in Hi. left. exact Hi.
+  - right. exact Hs.
+  - rewrite Ha in H4. vm_compute in H4. discriminate.
+Qed.
+
 Corollary cf_starts_upstream v r d : cf_starts v r d = true -> cf_rule_upstream (cf_resolve_all r).
 Proof. intros H. apply cf_starts_iff in H. unfold cf_rules_impl, cf_rules_core in H. tauto. Qed.
 
@@ -737,6 +804,26 @@ Lemma cf_docs_idporten_acr_refuted :
   cf_boot cf_cur (cf_resolve_doc cf_docs_before cf_ex_idporten) cf_ex_disc_old = None /\
   cf_run cf_cur cf_ex_idporten cf_ex_disc_old = Zpos cf_E_acr /\
   cf_run cf_cur cf_ex_idporten cf_ex_disc_new = 0%Z.
+Proof. repeat split; vm_compute; reflexivity. Qed.
+
+(* standalone with --openid.acr-values=a against providers advertising only the higher / only the configured level *)
+Definition cf_ex_acr (a : bytes) : cf_raw :=
+  mk_cf_raw cf_nossrc (cf_flb cf_ex_key32) (cf_fl "https://app.example.com") cf_nossrc (cf_fl "cid") cf_nossrc (cf_fl "s")
+    (cf_flb cf_ex_wk) cf_nossrc (cf_flb a) cf_nossrc cf_nossrc cf_nossrc cf_nossrc cf_nossrc cf_nossrc cf_nossrc cf_nossrc cf_nossrc
+    None None None None None None None
+    cf_tabs cf_tabs cf_tabs cf_tabs cf_tabs [] [] [cf_ex_wk].
+Definition cf_ex_disc_acrs (l : list bytes) : cf_disc := mk_cf_disc true [cf_lit_rs256] l [] true true.
+
+Lemma cf_higher_level_not_enough :
+  cf_run cf_cur (cf_ex_acr cf_lit_loa_substantial) (cf_ex_disc_acrs [cf_lit_loa_high]) = Zpos cf_E_acr /\
+  cf_run cf_cur (cf_ex_acr cf_lit_level3) (cf_ex_disc_acrs [cf_lit_loa_high]) = Zpos cf_E_acr /\
+  cf_run cf_cur (cf_ex_acr cf_lit_level3) (cf_ex_disc_acrs [cf_lit_level4; cf_lit_loa_high]) = Zpos cf_E_acr /\
+  cf_run cf_cur (cf_ex_acr cf_lit_loa_high) (cf_ex_disc_acrs [cf_lit_loa_substantial]) = Zpos cf_E_acr /\
+  cf_run cf_cur (cf_ex_acr cf_lit_loa_substantial) (cf_ex_disc_acrs [cf_lit_level3]) = Zpos cf_E_acr /\
+  cf_run cf_cur (cf_ex_acr cf_lit_loa_substantial) (cf_ex_disc_acrs [cf_lit_loa_high; cf_lit_loa_substantial]) = 0%Z /\
+  cf_run cf_cur (cf_ex_acr cf_lit_level3) (cf_ex_disc_acrs [cf_lit_loa_substantial]) = 0%Z /\
+  cf_run cf_cur (cf_ex_acr cf_lit_level3) (cf_ex_disc_acrs [cf_lit_level3]) = 0%Z /\
+  cf_run cf_cur (cf_ex_acr cf_lit_level4) (cf_ex_disc_acrs [cf_lit_loa_high]) = 0%Z.
 Proof. repeat split; vm_compute; reflexivity. Qed.
 
 (** * Channel resolution *)
